@@ -430,8 +430,8 @@ func (s *Speller) expr(g *Grammar, e *Expr, min int) {
 		} else {
 			s.w("!")
 		}
-		if !s.Boot && s.u(5, "prefixws") == 0 {
-			s.w(" ")
+		if !s.Boot && s.u(4, "prefixws") == 0 {
+			s.ws(false) // any white space and comments may follow a prefix operator
 		}
 		switch e.Sub[0].K {
 		case KAndCode, KNotCode, KState:
@@ -461,14 +461,14 @@ func (s *Speller) expr(g *Grammar, e *Expr, min int) {
 		if e.Code == "" {
 			e.Code = Pick(s.t, actionBodies, "actionbody")
 			if s.Boot {
-				e.Code = actionBodies[s.u(2, "bootaction")]
+				e.Code = append(actionBodies[:2:2], "{\r\n\treturn nil, nil\r\n}", "{\r\n}")[s.u(4, "bootaction")]
 			}
 		}
 		s.w(e.Code)
 	case KAndCode, KNotCode, KState:
 		s.w(map[Kind]string{KAndCode: "&", KNotCode: "!", KState: "#"}[e.K])
-		if s.u(5, "predws") == 0 {
-			s.w(" ")
+		if s.u(4, "predws") == 0 {
+			s.ws(false) // `&` / `!` / `#`, then any white space and comments, then the code block
 		}
 		e.CodeP = s.pos()
 		if e.Code == "" {
